@@ -5,6 +5,8 @@ import (
 	"sort"
 	"strings"
 
+	mapset "github.com/deckarep/golang-set/v2"
+
 	"github.com/karagenc/socket.io-go/adapter"
 	vx "github.com/karagenc/socket.io-go/internal/vexplore"
 	"github.com/karagenc/socket.io-go/internal/vsched"
@@ -19,7 +21,7 @@ func cAlphabet() []aop {
 		for _, rm := range []int{1, 2} {
 			ops = append(ops, aop{kind: "AddAll", s: s, rooms: rm}, aop{kind: "Delete", s: s, rooms: rm})
 		}
-		ops = append(ops, aop{kind: "DeleteAll", s: s})
+		ops = append(ops, aop{kind: "DeleteAll", s: s}, aop{kind: "AddAll", s: s, rooms: 3})
 	}
 	return ops
 }
@@ -36,6 +38,16 @@ var cMatrices = []struct {
 }
 
 type span struct{ pre, post int }
+
+// unsafeOptsOf builds the options with thread-unsafe sets: their iteration order is fixed (sorted) in
+// the instrumented build, while the thread-safe set's Each walks its map in Go's random order, which
+// would make executions irreproducible.
+func unsafeOptsOf(T, E int) *adapter.BroadcastOptions {
+	o := adapter.NewBroadcastOptions()
+	o.Rooms = mapset.NewThreadUnsafeSet[adapter.Room](roomsOf(T)...)
+	o.Except = mapset.NewThreadUnsafeSet[adapter.Room](roomsOf(E)...)
+	return o
+}
 
 // possibleStates over-approximates the membership states that may have been current at some moment
 // of the broadcast's interval [b0,b1], from the begin/end marks of the mutators: an operation that
@@ -96,16 +108,22 @@ func possibleStates(init amodel, ops []aop, sp []span, b0, b1 int) []amodel {
 	return out
 }
 
-func cScenario(mi, T, E, nmut int, bound int) *vx.Scenario {
+// cScenario: the mutators ops (one thread each) race one Broadcast(T,E) on the membership matrix mi.
+// bound < 0: every interleaving.
+func cScenario(mi, T, E int, ops []aop, bound int) *vx.Scenario {
 	mat := cMatrices[mi]
-	name := fmt.Sprintf("race/%s/T=%s,E=%s/%dmut", mat.name, maskStr(T), maskStr(E), nmut)
+	var on []string
+	for _, o := range ops {
+		on = append(on, o.String())
+	}
+	name := fmt.Sprintf("race/%s/T=%s,E=%s/%s", mat.name, maskStr(T), maskStr(E), strings.Join(on, "+"))
 	sc := &vx.Scenario{Name: name, PreemptOnly: true}
 	if bound < 0 {
 		sc.Unbounded = true
 	} else {
 		sc.Bound = bound
 	}
-	alphabet := cAlphabet()
+	nmut := len(ops)
 	sc.Body = func(e *vsched.Exec) func() vx.Result {
 		a, st := newRig()
 		init := amodel{}
@@ -114,14 +132,6 @@ func cScenario(mi, T, E, nmut int, bound int) *vx.Scenario {
 			init.present[i] = true
 			init.rows[i] = mat.rows[i]
 		}
-		// which mutators run is an environment choice explored like a scheduling choice
-		ops := make([]aop, nmut)
-		lo := 0
-		for k := range ops {
-			c := lo + vsched.Choose(len(alphabet)-lo, fmt.Sprintf("mutator%d", k))
-			ops[k] = alphabet[c]
-			lo = c // unordered pairs
-		}
 		var logV vsched.Var
 		seq := 0
 		sp := make([]span, nmut)
@@ -129,7 +139,7 @@ func cScenario(mi, T, E, nmut int, bound int) *vx.Scenario {
 		mark := func(p *int) { logV.Do(func() { seq++; *p = seq }) }
 		vsched.GoQuiet("broadcast", func() {
 			mark(&b0)
-			a.Broadcast(evHeader(), []any{"ev"}, optsOf(T, E))
+			a.Broadcast(evHeader(), []any{"ev"}, unsafeOptsOf(T, E))
 			mark(&b1)
 		})
 		for k := range ops {
@@ -221,8 +231,12 @@ func allOrders(init amodel, ops []aop, sp []span) []amodel {
 	return possibleStates(init, ops, sp, max+1, max+2)
 }
 
+// partCScenarios: quick = every single mutator (all interleavings) and every pair of mutators on one
+// socket (<= 2 preemptions) on two matrices; thorough = all interleavings of every single mutator and
+// every pair on one socket on four matrices, and of every pair on different sockets on one.
 func partCScenarios(tier string) []*vx.Scenario {
 	var out []*vx.Scenario
+	alphabet := cAlphabet()
 	mats := []int{0, 1}
 	if tier == "thorough" {
 		mats = []int{0, 1, 2, 3}
@@ -230,10 +244,67 @@ func partCScenarios(tier string) []*vx.Scenario {
 	for _, mi := range mats {
 		for T := 0; T < 4; T++ {
 			for E := 0; E < 4; E++ {
-				out = append(out, cScenario(mi, T, E, 1, -1))
-				out = append(out, cScenario(mi, T, E, 2, -1))
+				for i, o1 := range alphabet {
+					out = append(out, cScenario(mi, T, E, []aop{o1}, -1))
+					for _, o2 := range alphabet[i:] {
+						same := o1.s == o2.s
+						switch {
+						case tier != "thorough" && same:
+							out = append(out, cScenario(mi, T, E, []aop{o1, o2}, 2))
+						case tier == "thorough" && (same || mi < 1):
+							out = append(out, cScenario(mi, T, E, []aop{o1, o2}, -1))
+						}
+					}
+				}
 			}
 		}
 	}
 	return out
+}
+
+// summarizeC replaces the per-scenario list of the evidence (thousands of entries) by sums per group.
+func summarizeC(r *vx.Report) {
+	list, _ := r.Extra["scenarios"].([]map[string]any)
+	if len(list) == 0 {
+		return
+	}
+	type agg struct {
+		n, execs, pruned, steps, states, maxSteps, maxThreads int
+		wall                                                  float64
+		bounds                                                map[string]int
+	}
+	groups := map[string]*agg{}
+	for _, s := range list {
+		name, _ := s["scenario"].(string)
+		f := strings.Split(name, "/")
+		g := "other"
+		if len(f) == 4 {
+			g = fmt.Sprintf("matrix %s, %d mutator(s)", f[1], strings.Count(f[3], "+")+1)
+		}
+		a := groups[g]
+		if a == nil {
+			a = &agg{bounds: map[string]int{}}
+			groups[g] = a
+		}
+		a.n++
+		a.execs += s["executions"].(int)
+		a.pruned += s["pruned_equivalent"].(int)
+		a.steps += s["steps"].(int)
+		a.states += s["states"].(int)
+		if v := s["max_steps_per_execution"].(int); v > a.maxSteps {
+			a.maxSteps = v
+		}
+		if v := s["max_threads"].(int); v > a.maxThreads {
+			a.maxThreads = v
+		}
+		a.wall += s["wall_s"].(float64)
+		a.bounds[s["bound_completed"].(string)]++
+	}
+	var out []map[string]any
+	for _, g := range sortedKeys(groups) {
+		a := groups[g]
+		out = append(out, map[string]any{"group": g, "scenarios (one per (T,E) x mutator choice)": a.n, "executions": a.execs, "pruned_equivalent": a.pruned, "steps": a.steps,
+			"states": a.states, "max_steps_per_execution": a.maxSteps, "max_threads": a.maxThreads, "cpu_s": a.wall, "bound_completed": a.bounds})
+	}
+	r.Extra["scenarios"] = out
 }
